@@ -125,6 +125,9 @@ def parse_item(t):
                 pass            # nodes of the harness have no schema types: they are untyped
             else:
                 return ('never',)
+            if head == 'element':
+                # element(N, T) does not match a nilled element, element(N, T?) does (XPath 3.1 2.5.5.3)
+                return ('node', head, name, 'nilled-ok' if ty.endswith('?') else 'not-nilled')
         return ('node', head, name)
     if head == 'function':
         inner = rest[:rest.index(')') + 1] if False else None
@@ -176,6 +179,8 @@ def match_item(item, it):
         if it[1] is None:
             return True
         if item[1] != it[1]:
+            return False
+        if len(it) > 3 and it[3] == 'not-nilled' and len(item) > 3 and item[3] == 'nilled':
             return False
         if it[2] is None:
             return True
@@ -287,6 +292,12 @@ def selftest():
     assert m([A('int'), A('int')], 'xs:integer+') and not m([A('int'), A('int')], 'xs:integer?') and not m([A('int'), A('string')], 'xs:integer*') and m([A('int'), A('string')], 'item()+')
     e = ('node', 'element', 'a')
     assert m([e], 'element()') and m([e], 'element(a)') and not m([e], 'element(b)') and m([e], 'element( * )') and m([e], 'node()') and not m([e], 'attribute()') and m([e], 'element(a, xs:untyped)')
+    nl = ('node', 'element', 'n', 'nilled')
+    assert m([nl], 'element(n)') and not m([nl], 'element(n, xs:untyped)') and m([nl], 'element(n, xs:untyped?)') and m([nl], 'element()') and not m([nl], 'element(*, xs:untyped)')
+    hf = ('function', [parse('function(xs:integer) as xs:int')], parse('xs:integer'))
+    assert m([hf], 'function(function(xs:integer) as xs:int) as xs:integer') and not m([hf], 'function(function(xs:integer) as xs:integer) as xs:integer')
+    rf = ('function', [], parse('function(xs:integer) as xs:int'))
+    assert m([rf], 'function() as function(xs:integer) as xs:integer') and m([rf], 'function() as function(xs:integer) as xs:int') and not m([('function', [], parse('function(xs:integer) as xs:integer'))], 'function() as function(xs:integer) as xs:int')
     assert not m([e], 'element(a, xs:string)') and m([('node', 'attribute', 'id')], 'attribute(id, xs:untypedAtomic)') and m([('node', 'processing-instruction', 't')], 'processing-instruction("t")')
     assert m([('node', 'document', None, e)], 'document-node(element(a))') and not m([('node', 'document', None, e)], 'document-node(element(b))') and m([('node', 'document', None, e)], 'document-node()')
     f = ('function', [parse('xs:integer')], parse('xs:string'))
